@@ -520,7 +520,7 @@ func (c *converter) Copy(destination string, source string, valueUsed bool, glob
 	c.sliceCopyHelperRequired = true
 
 	helper := c.nextHelperVar()
-	c.VarAssignment(helper, c.sliceLenString(c.varEvaluationString(destination, true)), false)
+	c.VarAssignment(helper, c.sliceLenString(source), false) // the number of copied elements
 
 	return c.varEvaluationString(helper, false), nil
 }
